@@ -6,7 +6,7 @@ From Coq Require Import List Arith Bool Lia.
 Import ListNotations.
 From TF Require Import Base.Hier Base.Ty Sub.Match Sub.SubSpec Sub.SubProofs.
 From TF Require Import Bag.Union Bag.Bag Bag.BagTy.
-From TF Require Import Query.Bgp Query.Gen Query.GenProofs Query.Spec Query.Assign.
+From TF Require Import Query.Bgp Query.Gen Query.GenProofs Query.Spec Query.Assign Query.TaskSpec.
 
 Definition mem_ty (t : ty) (l : list ty) : bool := existsb (ty_eqb t) l.
 
@@ -108,4 +108,17 @@ Theorem query_decide H canon G fuel T unfold sw sk :
   (matchc G (gen H sw sk) = true <-> assignable sw G sk).
 Proof.
   intros W GOK SK CAN CH. rewrite matchc_spec. now apply (query_spec H canon G fuel T unfold).
+Qed.
+
+(* on the task's own step nodes (assign_variables without unfold_tree; with
+   unfold_tree the steps are the paths from the outputs, which for tree-shaped
+   tasks are the step nodes again) *)
+Theorem task_query_spec H canon G fuel T sw sk :
+  wf_hier H -> graph_ok H canon G ->
+  skeleton fuel T false = Ok sk -> sk_canon H canon sk -> by_chronology sw = true ->
+  (matches G (gen H sw sk) <-> task_assignable sw G T).
+Proof.
+  intros W GOK SK CAN CH.
+  destruct (skeleton_dag fuel T false sk SK) as (DAG & nodes & FT).
+  rewrite (gen_spec H canon); auto. apply (assignable_task T sk nodes DAG FT).
 Qed.
